@@ -1,7 +1,9 @@
 package scen
 
 import (
+	"encoding/json"
 	"fmt"
+	"strings"
 	"sync"
 	"time"
 
@@ -291,6 +293,41 @@ func runC07(c *Ctx) {
 		c.Count("mitigation-script")
 	}
 	c.Emit("ticks", "dispatches of the real rollbackMitigation vs Rollback.report over the same answers", im, "list row * list (list (N * N)) * list N", "chk_ticks", tc, tr, 20)
+	// ---- (4) the whole client against the simulated node, persisted-seqno reports arriving while Open() is still loading
+	// the checkpoints (the node answers those reads late) and never changing afterwards (an idle bucket): every copy has
+	// reported, so every document must come through
+	nw := c.Pick(3, 12)
+	wres := make([]*c13WireRes, nw)
+	wseed := make([]int64, nw)
+	for i := range wseed {
+		wseed[i] = rng.Int63()
+	}
+	Parallel(nw, 4, func(i int) {
+		cr := RunChild("c13wire", c13WireArg{Seed: wseed[i], Mitigation: true, SlowLoad: true}, 90*time.Second)
+		for _, l := range cr.Lines {
+			if strings.HasPrefix(l, "RESULT ") {
+				r := &c13WireRes{}
+				if json.Unmarshal([]byte(l[7:]), r) == nil {
+					wres[i] = r
+				}
+			}
+		}
+	})
+	for i, r := range wres {
+		rep := map[string]interface{}{"how": "vh child c13wire", "arg": c13WireArg{Seed: wseed[i], Mitigation: true, SlowLoad: true}}
+		c.Eval(fmt.Sprint("whole-client", wseed[i]), true)
+		c.Count("whole-client-slow-load")
+		if r == nil || !r.Ready {
+			c.Violate("harness", "the whole client against the simulated node did not start", rep)
+			continue
+		}
+		rep["observed"] = r
+		if r.Consumed < r.Sent {
+			c.Violate("first-report-lost", fmt.Sprintf("every copy of every vBucket reported everything persisted while Open() was loading the checkpoints; %d documents were sent afterwards, %d reached the consumer within 3 s: the others wait at the gate although the reported minimum covers them",
+				r.Sent, r.Consumed), rep)
+		}
+	}
+
 }
 
 // runMitigationScript starts the real rollback mitigation for one vBucket with R replicas (some unassigned) and
